@@ -76,13 +76,17 @@ struct Sched {
     st: Mutex<SchedState>,
     cv: Condvar,
     decisions: Vec<u8>,
+    /// free-running: no baton; whoever executes this process (Miri's seeded
+    /// scheduler, which preempts anywhere) decides the interleaving
+    free: bool,
 }
 
 const STALL: Duration = Duration::from_millis(1500);
 
 impl Sched {
-    fn new(n: usize, decisions: Vec<u8>) -> Self {
+    fn new(n: usize, decisions: Vec<u8>, free: bool) -> Self {
         Sched {
+            free,
             st: Mutex::new(SchedState {
                 current: 0,
                 runnable: vec![true; n],
@@ -138,12 +142,19 @@ impl Sched {
     }
 
     fn start(&self, me: usize) {
+        if self.free {
+            return;
+        }
         let st = self.st.lock().unwrap();
         self.wait_for(me, st);
     }
 
     /// A scheduling point reached by thread `me`.
     fn seam(&self, me: usize, inside_op: bool) {
+        if self.free {
+            std::thread::yield_now();
+            return;
+        }
         let mut st = self.st.lock().unwrap();
         if st.current != me {
             // we were declared stalled and somebody else holds the baton
@@ -166,6 +177,9 @@ impl Sched {
     }
 
     fn finish(&self, me: usize) {
+        if self.free {
+            return;
+        }
         let mut st = self.st.lock().unwrap();
         st.runnable[me] = false;
         st.progress += 1;
@@ -357,9 +371,13 @@ fn run_op(sched: &Sched, me: usize, idx: usize, op: &Op) -> OpRecord {
 }
 
 pub fn execute(plan: &Plan) -> RunResult {
+    execute_mode(plan, false)
+}
+
+pub fn execute_mode(plan: &Plan, free: bool) -> RunResult {
     let n = plan.threads.len();
-    let sched = Arc::new(Sched::new(n, plan.sched.clone()));
-    {
+    let sched = Arc::new(Sched::new(n, plan.sched.clone(), free));
+    if !free {
         // the first decision picks who starts
         let mut st = sched.st.lock().unwrap();
         let first = sched.choose(&mut st, None).unwrap_or(0);
